@@ -158,6 +158,11 @@ type client struct {
 	connM sync.Mutex
 	conn  net.Conn
 
+	// writeM is held while a request is written to conn, so that requests of
+	// concurrent senders don't interleave when conn needs more than one
+	// Write for a request, as is the case for conns that are not kernel sockets
+	writeM sync.Mutex
+
 	// Address of the RegionServer.
 	addr  string
 	ctype ClientType
@@ -672,12 +677,14 @@ func (c *client) send(rpc hrpc.Call) (uint32, error) {
 	}
 
 	rpcSize.WithLabelValues(c.Addr()).Observe(float64(uint32(len(b)) + cellblocksLen))
+	c.writeM.Lock()
 	if cellblocks != nil {
 		bfs := append(net.Buffers{b}, cellblocks...)
 		_, err = bfs.WriteTo(c.conn)
 	} else {
 		err = c.write(b)
 	}
+	c.writeM.Unlock()
 	if err != nil {
 		return id, ServerError{err}
 	}
